@@ -231,7 +231,8 @@ def c12_arithmetic(E):
     m = base_model(E)
     r1, r2 = m.reactions.R1, m.reactions.R2
     before = observe(m)
-    what = E.pick("operation", ["Reaction.copy", "Metabolite.copy", "r1+r2", "r1-r2", "r1*k", "r1+0", "0+r1", "sum([r1])"])
+    what = E.pick("operation", ["Reaction.copy", "Metabolite.copy", "r1+r2", "r1-r2", "r1*k", "r1+0", "0+r1", "sum([r1])",
+                                "no_rule+r1", "r1+no_rule"])
     E.note(operation=what)
     if what == "Metabolite.copy":
         res = m.metabolites.A.copy()
@@ -254,12 +255,19 @@ def c12_arithmetic(E):
         res = 0 + r1
     elif what == "sum([r1])":
         res = sum([r1])
+    elif what == "no_rule+r1":
+        res = m.reactions.DM_B + r1         # the left operand has no gene rule, the right one has
+    elif what == "r1+no_rule":
+        res = r1 + m.reactions.DM_B
     else:
         res = copy.copy(r1)
     same(E, before, observe(m), "operands-unchanged", what=what)
     if what != "copy.copy(r1)":
         model_objs = set(id(x) for x in list(m.metabolites) + list(m.genes) + list(m.reactions))
-        E.prove(res is not r1 and res._model is None and not any(id(x) in model_objs for x in list(res._metabolites) + list(res._genes)),
+        import ast
+        model_nodes = set(id(n) for r in m.reactions for n in ast.walk(r.gpr)) | set(id(r.gpr) for r in m.reactions)
+        E.prove(res is not r1 and res._model is None and not any(id(x) in model_objs for x in list(res._metabolites) + list(res._genes))
+                and id(res.gpr) not in model_nodes and not any(id(n) in model_nodes for n in ast.walk(res.gpr)),
                 "result-detached", what=what)
         # mutating the result must not reach the model
         res.bounds = (-1, 1)
@@ -267,6 +275,10 @@ def c12_arithmetic(E):
         res.notes["x"] = 1
         for met in res._metabolites:
             met.name = "changed"
+        import ast as _ast
+        for node in _ast.walk(res.gpr):       # what rename_genes / remove_genes do to a rule: rewrite the leaves in place
+            if isinstance(node, _ast.Name):
+                node.id = node.id + "_renamed"
         same(E, before, observe(m), "mutating-the-result-does-not-reach-the-model", what=what)
 
 
